@@ -549,6 +549,11 @@ def process_fn(text, block, applied, canary=False):
             if key == "insert_after":
                 pos += len(old)
             edits.append((pos, pos, "\n" + new + "\n"))
+    epi = [v for k, v in d if k == "epilogue"]
+    if epi:
+        # ghost text checked at the END of a unit-returning body (the final state of a consumed `self`)
+        end_brace = body.rstrip().rfind("}")
+        edits.append((end_brace, end_brace, "\n    " + "\n    ".join(e.strip() for e in epi) + "\n"))
     for a, b, r in sorted(edits, key=lambda e: -e[0]):
         body = body[:a] + r + body[b:]
     attrs = "".join(v.strip() + "\n" for k, v in d if k == "attr")
